@@ -1817,7 +1817,7 @@ fn main() {
 	// wall budget; `--budget-s N` overrides it (diagnostics on a loaded machine)
 	let budget_s = arg_value(&run.args, "--budget-s")
 		.and_then(|x| x.parse::<u64>().ok())
-		.unwrap_or(if san.is_some() { 600 } else { run.tier.pick(70, 630) });
+		.unwrap_or(if san.is_some() { 600 } else { run.tier.pick(300, 1800) });
 	let shared = Arc::new(Shared {
 		run,
 		t0: Instant::now(),
